@@ -20,11 +20,15 @@ Definition pred64 (h : N) : N := if (h =? 0)%N then (two64 - 1)%N else (h - 1)%N
 Record resp (R : Type) := mkResp { r_min : Z; r_blocks : option (list R) }.
 Arguments mkResp {R}. Arguments r_min {R}. Arguments r_blocks {R}.
 
+(* the completion test of FetchBlocks (after the F-22 fix): the block is below the minimum
+   timestamp, or it is genesis (height 0: there is nothing older to fetch) *)
+Definition fin (min : Z) (b : block) : bool := (b_ts b <? min) || (b_height b =? 0)%N.
+
 Section Client.
 Variable R : Type.
 Variable parse : R -> option block.
 
-(* for _, raw := range response.Blocks { parse; check expectedParentID; emit; stop if ts < min } *)
+(* for _, raw := range response.Blocks { parse; check expectedParentID; emit; stop if ts < min or height 0 } *)
 Fixpoint consume (min : Z) (expected : N) (raws : list R) (last : block) (acc : list block)
   : block * list block * bool :=
   match raws with
@@ -34,7 +38,7 @@ Fixpoint consume (min : Z) (expected : N) (raws : list R) (last : block) (acc : 
       | None => (last, acc, false)
       | Some b =>
           if negb (N.eqb expected (b_id b)) then (last, acc, false)
-          else if b_ts b <? min then (b, acc ++ [b], true)
+          else if fin min b then (b, acc ++ [b], true)
                else consume min (b_parent b) rest b (acc ++ [b])
       end
   end.
@@ -43,7 +47,7 @@ Fixpoint consume (min : Z) (expected : N) (raws : list R) (last : block) (acc : 
    was closed (backfill complete), the BlockHeight of every request sent *)
 Fixpoint client (resps : list (resp R)) (min : Z) (last : block) (acc : list block) (reqs : list N)
   : list block * bool * list N :=
-  if b_ts last <? min then (acc, true, reqs)
+  if fin min last then (acc, true, reqs)
   else match resps with
        | [] => (acc, false, reqs)
        | r :: rest =>
